@@ -138,6 +138,22 @@ static void run_pair(Ctx& ctx, MODULE* mod, uint64_t N, const std::string& id, c
     }
     if (!a.guards_ok() || !dft.guards_ok() || !big.guards_ok()) ctx.violation(id, std::string(pn) + " wrote outside a declared extent");
   }
+  // sparse limb vectors with zero stride padding (one column of a row-major matrix of polynomials): limbs a0, 0, a0 X, 0 at strides
+  // N+1, 2N and 3N+1 - a shortcut for "empty" limbs must look at the right coefficients
+  for (uint64_t asl : {N + 1, 2 * N, 3 * N + 1}) for (uint64_t as : {2, 3, 4}) {
+    const uint64_t rs = as;
+    GBuf a(limbvec_elems(N, as, asl) * 8, 24), dft(bytes_of_vec_znx_dft(mod, rs), 16), big(bytes_of_vec_znx_big(mod, rs), 8);
+    memset(a.p, 0, a.bytes); prefill(dft.p, dft.bytes, 2); prefill(big.p, big.bytes, 1);
+    for (uint64_t i = 0; i < as; i += 2) memcpy(a.as<int64_t>() + i * asl, limbs[i / 2].data(), N * 8);   // odd limbs stay zero
+    svp_apply_dft(mod, (VEC_ZNX_DFT*)dft.p, rs, (SVP_PPOL*)ppol.p, a.as<int64_t>(), as, asl);
+    vec_znx_idft_tmp_a(mod, (VEC_ZNX_BIG*)big.p, rs, (VEC_ZNX_DFT*)dft.p, rs);
+    const char* pn = "svp_apply_dft on a sparse limb vector with zero padding + vec_znx_idft_tmp_a";
+    for (uint64_t i = 0; i < rs; ++i) {
+      if (i % 2 == 0) { if (exl[i / 2].empty()) exact_product(N, limbs[i / 2], p, exl[i / 2]); if (!judge(ctx, id, pn, N, big.as<int64_t>() + i * N, exl[i / 2], E)) break; }
+      else for (uint64_t k = 0; k < N; ++k) if (big.as<int64_t>()[i * N + k] != 0) { ctx.violation(id, sfmt("%s: the product with the zero limb %llu is not zero", pn, (unsigned long long)i)); i = rs; break; }
+    }
+    if (!a.guards_ok() || !dft.guards_ok() || !big.guards_ok()) ctx.violation(id, std::string(pn) + " wrote outside a declared extent");
+  }
   if (!ppol.guards_ok() || !pol.guards_ok()) ctx.violation(id, "svp_prepare wrote outside a declared extent");
   ctx.end_case(true);
 }
